@@ -240,7 +240,7 @@ def life(ctx, exe):
         for k in ([3] if ctx.tier == "quick" else [3, 0, 1]):
             v = "life-hifd%d" % k
             objcheck.replay_cover(ctx, g, [init[0]], exe, v, [], life_keyfn, walks=(100, 40) if ctx.tier == "quick" else (500, 60),
-                                  jobs=4, env={"VH_WATCHDOG": "20", "VH_HIFD": str(k)}, max_levels=7 if ctx.tier == "quick" else 200)
+                                  jobs=4, env={"VH_WATCHDOG": "20", "VH_HIFD": str(k)}, max_levels=7 if ctx.tier == "quick" else 9)
             ctx.add("distinct_nontrivial", ctx.cov["replay"][v]["scripts"])
     return g
 
